@@ -290,6 +290,8 @@ class Run:
         return status
       if fault is not None:
         fk = fault['kind']
+        if fk == 'none_always':
+          return ret(None)         # a handler that never returns a status (forgotten return)
         if fk == 'none_on_user' and sn in user:
           return ret(None)
         if fk == 'none_on_exit' and sig == EXIT:
@@ -353,6 +355,7 @@ class Model:
     self.spec = spec
     self.cur = None
     self.gcount = 0
+    self.touched = []      # states entered or asked for their init by the last start/dispatch
 
   def _name(self, i):
     return self.spec['names'][i]
@@ -367,6 +370,7 @@ class Model:
     return path
 
   def _enter(self, x, out):
+    self.touched.append(x)
     if self.spec['clauses'][x][0]:
       out.append(('entry', self._name(x)))
 
@@ -377,6 +381,7 @@ class Model:
   def drill(self, t, out):
     sp = self.spec
     while True:
+      self.touched.append(t)
       if sp['clauses'][t][2]:
         out.append(('init', self._name(t)))
       if sp['init'][t] is None or not sp['clauses'][t][2]:
@@ -387,6 +392,7 @@ class Model:
 
   def start(self, s):
     out = []
+    self.touched = []
     for x in self.enter_chain(None, s):
       self._enter(x, out)
     self.cur = self.drill(s, out)
@@ -395,6 +401,7 @@ class Model:
   def dispatch(self, sn):
     """returns (expected action log incl. offers and guards, kind, S, T)"""
     sp = self.spec
+    self.touched = []
     out, s, T, kind = [], self.cur, None, 'ignored'
     known = sn in sp['sigs']
     while s is not None:
